@@ -75,6 +75,7 @@ type VirtualISO struct {
 	padAreaSize  sizeBytes
 	fsBuf        iso9660encoder // binary-encoded filesystem structures
 	files        filesList      // ordered by location list of files to read from fs
+	openedFile   *fileItem      // the only item of files kept open between reads
 	offset       sizeBytes      // used during Read and Seek
 }
 
@@ -708,10 +709,20 @@ func (viso *VirtualISO) read(buf []byte, off int64) (int64, error) {
 					offset, fileItem.path, fileItem.rLBA.bytes(), fileItem.size.sectors().bytes())
 			}
 
+			// Keep a single file open: tree may have more files than process may have descriptors,
+			// sequential reading needs only the current one.
+			if viso.openedFile != nil && viso.openedFile != fileItem {
+				if err := viso.openedFile.closeOpened(); err != nil {
+					return read, fmt.Errorf("failed to close %s: %w", viso.openedFile.path, err)
+				}
+			}
+
 			f, err := fileItem.openOnDemand(viso.fs)
 			if err != nil {
 				return read, fmt.Errorf("failed to open %s: %w", fileItem.path, err)
 			}
+
+			viso.openedFile = fileItem
 
 			fileOffset := offset - fileItem.rLBA.bytes()
 
